@@ -148,10 +148,39 @@ def gen_case(rng):
                 max_memfile=mm_, max_body=max_body, sched=core.gen_sched(rng, len(wire)), accs=accs)
 
 
+CALL_BUDGET = 2        # CPU seconds per body-accessor call (core.with_timeout budgets CPU time)
+HANG_CAP = 4           # hanging calls per input class and stage after which the class is no longer exercised
+
+
 def run_case(rig, c, record=True, catch=True):
     return core.with_timeout(lambda: rig.post(c['ct'], bytes.fromhex(c['wire']), c['accs'], cl=c['cl'], chunked=c['chunked'],
                                               max_memfile=c['max_memfile'], sched=c['sched'], max_body=c['max_body'],
-                                              record=record, catch=catch), 10)
+                                              record=record, catch=catch), CALL_BUDGET)
+
+
+def hang_class(c):
+    """inputs that take the same path to a loop: content-type class x whether a form accessor is read"""
+    return '%s/%s' % (c['kind'], 'form' if any(a in 'pfF' for a in c['accs']) else 'raw')
+
+
+class HangCap:
+    """a hang is established by the first input that shows it; every further one costs a full watchdog budget, so
+    a class is dropped after HANG_CAP hangs (and the whole stage after 3 * HANG_CAP)"""
+
+    def __init__(self, stats, stage):
+        self.n, self.stats, self.stage = {}, stats, stage
+
+    def skip(self, c):
+        if self.n.get(hang_class(c), 0) >= HANG_CAP or sum(self.n.values()) >= 3 * HANG_CAP:
+            k = 'hangs_capped_' + self.stage
+            self.stats[k] = self.stats.get(k, 0) + 1
+            return True
+        return False
+
+    def hang(self, c):
+        self.n[hang_class(c)] = self.n.get(hang_class(c), 0) + 1
+        k = 'hangs_' + self.stage
+        self.stats[k] = self.stats.get(k, 0) + 1
 
 
 def small_cases():
@@ -226,11 +255,14 @@ class C12(Check):
         cases = list(small_cases()) if n >= 1000 else []
         cases = cases[:: 3 if n < 5000 else 1]
         cases += [gen_case(rng) for _ in range(n)]
+        cap = HangCap(self.stats, 'corr')
         for c in cases:
+            if cap.skip(c):
+                continue
             try:
                 res = run_case(rig, c)
             except core.Hang:
-                self.bump('hang')
+                cap.hang(c)
                 continue
             line = self._line(c, res)
             self.bump('framing=%s' % res['rec']['framing'])
@@ -254,7 +286,7 @@ class C12(Check):
         try:
             res = run_case(rig, c, record=False, catch=False)
         except core.Hang:
-            return 'hang', 'the request did not complete within 10 s'
+            return 'hang:' + hang_class(c), f'the request did not complete within {CALL_BUDGET} s of CPU time'
         if res['escaped']:
             return 'escaped:' + res['escaped'], f'{res["escaped"]} escaped the application'
         st = res['status']
@@ -318,10 +350,16 @@ class C12(Check):
                 cases.append(dict(boundary=b, ct=odd, kind='multipart-odd', payload_kind='named', payload=named[0].hex(),
                                   wire=named[0].hex(), chunked=False, cl=str(len(named[0])), max_memfile=102400, max_body=None,
                                   sched=[], accs=[acc]))
-        cases += [gen_case(rng) for _ in range(n)]
+        # smallest inputs first, so that the first input showing a failure is a small one
+        cases += sorted((gen_case(rng) for _ in range(n)), key=lambda c: (len(c['wire']), len(c['accs'])))
+        cap = HangCap(self.stats, 'search')
         for c in cases:
+            if cap.skip(c):
+                continue
             evals += 1
             bad = self._oracle(rig, c)
+            if bad and bad[0].startswith('hang'):
+                cap.hang(c)
             if bad:
                 findings.append(Finding('C12:' + bad[0], bad[1], {k: v for k, v in c.items() if k != 'has_error'}))
         return evals, findings
@@ -329,7 +367,12 @@ class C12(Check):
     def replay(self, data):
         c = data['input']
         rig = fl.Rig()
-        res = run_case(rig, c, record=False, catch=False)
+        try:
+            res = run_case(rig, c, record=False, catch=False)
+        except core.Hang:
+            return dict(input={k: v for k, v in c.items() if k not in ('wire', 'payload')},
+                        payload=repr(bytes.fromhex(c['payload'])), wire=repr(bytes.fromhex(c['wire'])),
+                        oracle=['hang:' + hang_class(c), f'the request did not complete within {CALL_BUDGET} s of CPU time'])
         return dict(input={k: v for k, v in c.items() if k not in ('wire', 'payload')}, payload=repr(bytes.fromhex(c['payload'])),
                     wire=repr(bytes.fromhex(c['wire'])), status=res['status'], outcomes=res['outs'],
                     wsgi_errors=res['errors'][-600:], escaped=res['escaped'], oracle=self._oracle(rig, c))
